@@ -618,6 +618,10 @@ class Interp:
 
     def binary(self, op, a, b, line=None):
         a, b = pyval(a), pyval(b)
+        if getattr(a, 'hooked', False) or getattr(b, 'hooked', False):
+            h = self.unit.binary_hook(self, op, a, b, line)
+            if h is not NotImplemented:
+                return h
         if isinstance(a, (int, float, Fraction)) and isinstance(b, (int, float, Fraction)) and not isinstance(a, bool) \
                 and not isinstance(b, bool) and (isinstance(a, (float, Fraction)) or isinstance(b, (float, Fraction))):
             # A-REAL: a float literal denotes the real number written in the source; concrete float arithmetic is exact
@@ -641,9 +645,7 @@ class Interp:
         if isinstance(a, (STensor, np.ndarray)) or isinstance(b, (STensor, np.ndarray)):
             a2 = as_tensor(a) if isinstance(a, (STensor, np.ndarray, list, tuple)) else a
             b2 = as_tensor(b) if isinstance(b, (STensor, np.ndarray, list, tuple)) else b
-            if op in ('/', '//', '%'):
-                self.division_guard(b2, line)
-            f = lambda x, y: binop(op, x, y)  # noqa: E731
+            f = lambda x, y: binop(op, x, y)  # noqa: E731  (numpy array division never raises: inf/nan + warning)
             if self.ctx.ghost.get('fp_standard_model') and op in ('*', '/'):
                 f = self.fp_wrap(op, line)
             return V.elementwise(self.ctx, f, a2, b2, dtype='real' if op == '/' else None, line=line)
